@@ -64,6 +64,7 @@ type FuncSpec struct {
 	Flows    map[string][]string
 	AssignsNone bool
 	Holds    []string
+	Allocates map[string]bool
 	Trusted  bool
 	Pure     bool
 	NoSafety bool // do not emit zero-annotation safety obligations
@@ -123,7 +124,7 @@ var clauseKeywords = map[string]bool{
 	"props": true, "trusted": true, "pure": true, "requires": true, "ensures": true,
 	"modifies": true, "ghost": true, "use": true, "on": true, "after": true, "before": true,
 	"loop": true, "invariant": true, "decreases": true, "nonnil": true, "lock": true,
-	"lockinv": true, "guarantee": true, "rely": true, "fresh": true, "exit": true, "flows": true, "assigns": true, "assumes": true, "holds": true, "nilable": true, "nosafety": true, "using": true,
+	"lockinv": true, "guarantee": true, "rely": true, "fresh": true, "exit": true, "flows": true, "assigns": true, "assumes": true, "holds": true, "allocates": true, "nilable": true, "nosafety": true, "using": true,
 }
 
 type rawClause struct {
@@ -333,6 +334,16 @@ func parseContractFile(path string, requirePrefix bool) (*ContractFile, error) {
 				return nil, errf(rc, "modifies outside func")
 			}
 			curF.Modifies = append(curF.Modifies, splitNames(rc.rest)...)
+		case "allocates":
+			if curF == nil {
+				return nil, errf(rc, "allocates outside func")
+			}
+			if curF.Allocates == nil {
+				curF.Allocates = map[string]bool{}
+			}
+			for _, n := range splitNames(rc.rest) {
+				curF.Allocates[n] = true
+			}
 		case "holds":
 			if curF == nil {
 				return nil, errf(rc, "holds outside func")
